@@ -18,7 +18,7 @@ func runC05(c *Check) error {
 	c.Assumptions = append(c.Assumptions, stdAssumptions...)
 	c.TriviaEmpty = true
 	unitJobsC05(c)
-	every := tierEvery(c, 4, 1)
+	every := tierEvery(c, 4, 2)
 	rich := c.Tier == "thorough"
 	for _, ver := range []string{"7.4", "5.6"} {
 		needs, err := c.wholeJobs("H_C05", ver, 3_000_000, true)
@@ -48,7 +48,7 @@ func runC05(c *Check) error {
 
 func runC08(c *Check) error {
 	c.Assumptions = append(c.Assumptions, stdAssumptions...)
-	every := tierEvery(c, 4, 1)
+	every := tierEvery(c, 4, 2)
 	rich := c.Tier == "thorough"
 	for _, ver := range []string{"7.4", "5.6"} {
 		needs, err := c.triviaJobs("H_C08", ver, every, rich, 3_000_000, "")
@@ -66,7 +66,7 @@ func runC08(c *Check) error {
 
 func runC10(c *Check) error {
 	c.Assumptions = append(c.Assumptions, stdAssumptions...)
-	every := tierEvery(c, 4, 1)
+	every := tierEvery(c, 4, 2)
 	rich := c.Tier == "thorough"
 	needs, err := c.wholeJobs("H_C10", "5.6", 3_000_000, false)
 	if err != nil {
